@@ -135,36 +135,46 @@ Qed.
 Lemma hd48 (a : N) {A} (x y : A) : a <> 48 -> match a with 48 => x | _ => y end = y.
 Proof. intros NE. destruct a as [|p]; [reflexivity|]. do 7 (try destruct p as [p|p|]); try reflexivity. contradiction. Qed.
 
+(** the two copies of `as i64` (lexprep's ScanMonad, the bridge's AstToCore); stated explicitly: the conversion test
+    on the eta-expanded closure is very slow *)
+Lemma t64 : ScanMonad.two64 = Lexer.two64. Proof. reflexivity. Qed.
+Lemma t63 : ScanMonad.two63 = Lexer.two63. Proof. reflexivity. Qed.
+Lemma as_i64_eq v : u64_as_i64 v = as_i64 v.
+Proof. unfold u64_as_i64, as_i64. rewrite t63, t64. reflexivity. Qed.
+Lemma omap_i64 o : option_map (fun i => u64_as_i64 i) o = option_map as_i64 o.
+Proof. destruct o; cbn [option_map]; [rewrite as_i64_eq|]; reflexivity. Qed.
+
 Theorem interpret_number_eq s : g_interpret_number s = AstToCore.interpret_number s.
 Proof.
   unfold g_interpret_number, AstToCore.interpret_number, ScanMonad.parse_u64.
-  destruct s as [|a t]; [reflexivity|].
+  destruct s as [|a t]; [vm_compute; reflexivity|].
   destruct (N.eq_dec a 48) as [->|N48].
   - (* "0.." *)
     destruct t as [|b r].
     + cbn [strip_prefix]. cbn. reflexivity.
     + destruct (N.eq_dec b 120) as [->|NX].
       * cbn [strip_prefix]. cbn -[u64_from_str_radix AstToCore.parse_u64 u64_as_i64 as_i64].
-        rewrite from_str_radix_eq by auto. reflexivity.
+        rewrite from_str_radix_eq by auto. rewrite omap_i64. reflexivity.
       * destruct (N.eq_dec b 98) as [->|NB].
-        -- cbn -[u64_from_str_radix AstToCore.parse_u64 u64_as_i64 as_i64]. rewrite from_str_radix_eq by auto. reflexivity.
+        -- cbn -[u64_from_str_radix AstToCore.parse_u64 u64_as_i64 as_i64]. rewrite from_str_radix_eq by auto. rewrite omap_i64. reflexivity.
         -- assert (S1 : strip_prefix [48; 120] (48 :: b :: r) = None).
-           { cbn. destruct (N.eqb_spec 120 b); [congruence|reflexivity]. }
+           { cbn. destruct b as [|q]; [reflexivity|]. destruct (Pos.eqb_spec 120 q) as [<-|]; [congruence|reflexivity]. }
            assert (S2 : strip_prefix [48; 98] (48 :: b :: r) = None).
-           { cbn. destruct (N.eqb_spec 98 b); [congruence|reflexivity]. }
+           { cbn. destruct b as [|q]; [reflexivity|]. destruct (Pos.eqb_spec 98 q) as [<-|]; [congruence|reflexivity]. }
            rewrite S1, S2. cbn [str_starts_with_char]. cbn [N.eqb Pos.eqb].
-           rewrite from_str_radix_eq by auto.
+           rewrite from_str_radix_eq by auto. rewrite omap_i64.
            destruct b as [|p]; [reflexivity|]. do 8 (try destruct p as [p|p|]); try reflexivity; contradiction.
   - assert (S1 : strip_prefix [48; 120] (a :: t) = None).
-    { cbn. destruct (N.eqb_spec 48 a); [congruence|reflexivity]. }
+    { cbn. destruct a as [|q]; [reflexivity|]. destruct (Pos.eqb_spec 48 q) as [<-|]; [congruence|reflexivity]. }
     assert (S2 : strip_prefix [48; 98] (a :: t) = None).
-    { cbn. destruct (N.eqb_spec 48 a); [congruence|reflexivity]. }
+    { cbn. destruct a as [|q]; [reflexivity|]. destruct (Pos.eqb_spec 48 q) as [<-|]; [congruence|reflexivity]. }
     rewrite S1, S2. cbn [str_starts_with_char].
     destruct (N.eqb_spec a 45) as [->|N45].
     + (* "-digits" *)
       cbn [parse_i64]. unfold digits_ok. destruct t as [|d r]; [reflexivity|].
-      rewrite (dv_base 10 _ _ _ ltac:(auto)). unfold validb. cbn [N.eqb Pos.eqb]. reflexivity.
-    + rewrite from_str_radix_eq by auto.
+      rewrite (dv_base 10 _ _ _ ltac:(auto)). unfold validb. cbn [N.eqb Pos.eqb]. rewrite t63.
+      destruct (forallb _ _); reflexivity.
+    + rewrite from_str_radix_eq by auto. rewrite omap_i64.
       destruct a as [|p]; [reflexivity|]. do 7 (try destruct p as [p|p|]); try reflexivity; contradiction.
 Qed.
 
